@@ -282,7 +282,12 @@ fn variant(steps: &[Step], rng: &mut Rng) -> String {
     if rng.chance(0.2) {
         out += *rng.pick(&["\n", "  ", "\n# last line\n", "\n# last line x=5 inv\n", " \r\n"]);
     }
-    out
+    // the line-end convention of the whole text: LF as written, or CRLF, or bare CR
+    match rng.below(4) {
+        0 => out.replace('\n', "\r\n"),
+        1 => out.replace('\n', "\r"),
+        _ => out,
+    }
 }
 
 fn params_fingerprint(p: &ParsedParameters) -> String {
